@@ -9,8 +9,12 @@ from pathlib import Path
 
 import common
 
-LEAN_TARGETS = ["CM.Props.C12", "CM.Props.C12Readers"]
+LEAN_TARGETS = ["CM.Props.C12", "CM.Props.C12Readers", "CM.Props.C12Detect"]
 THEOREMS = [
+    "CM.Readers.detectTools_eq_fold",
+    "CM.Readers.C12_detect_reads_all",
+    "CM.Readers.C12_detect_complete",
+    "CM.Readers.C12_detect_duplicate_iff",
     "CM.RS.C12_get_merge",
     "CM.RS.C12_imerge_eq_merge",
     "CM.RS.C12_fold",
@@ -46,7 +50,7 @@ LEVEL_TEXT = (
 )
 LEVEL_NOTE = (
     "Trusted: Lean kernel (axioms propext, Quot.sound); harness translation of JSON documents into the model's record shapes; "
-    "json/pathlib not modelled; detect_sarif_tools is modelled and compared but has no theorem."
+    "json/pathlib not modelled; detect_sarif_tools' detectors (`semgrep` / `CodeQL` in the driver name) are modelled as they stand in the two classes."
 )
 TECHNIQUE = "Lean 4 proof over hand-written model + differential correspondence with the real readers/merge"
 
